@@ -122,6 +122,26 @@ register(
 )
 
 
+register(
+    "C17",
+    level="proof",
+    streams=["fp", "edf", "fifo", "ros_e19", "ros_rr", "ros_bw", "arrival"],
+    falsifier=fals_analyses.falsify_C17,
+    partial=["proved for FIFO and the four FP and four EDF analyses (through C06: the analyses equal naive evaluation, which is monotone); for the ROS 2 analyses monotonicity is explored by the falsifier (base/hardened pairs incl. weaker supplies) and not yet a theorem",
+             "the analysed task's OWN last non-preemptive segment is not a hardening (own_last_segment_not_monotone) and is excluded"],
+    explanation="order-preservation of least solutions and maxima: pointwise larger right-hand sides give larger least fixed points and larger busy windows; the single-parameter hardenings (WCET, jitter, period, blocking, segment, added task) are proved to produce the pointwise orders; limit stability proved.",
+)
+
+register(
+    "C19",
+    level="proof",
+    streams=["fp", "edf", "fifo", "ros_e19", "ros_rr", "ros_bw", "supply"],
+    falsifier=fals_analyses.falsify_C19,
+    partial=["event source = FIFO is proved under a side condition and proved FALSE without it (counterexample_K3, known finding K3)"],
+    explanation="model equalities for all inputs: the three FP and three EDF reductions, max NP-EDF = FIFO for equal deadlines, all ROS 2 analyses invariant under the three encodings of a full supply (congruence in sbf / service_time + C09), event source vs FIFO.",
+)
+
+
 def replay(pid, path):
     """Re-run a recorded counterexample / disagreement and print the three views."""
     data = json.load(open(path))
